@@ -9,7 +9,7 @@ Open Scope Z_scope.
 
 Section RunAll.
 Variable p : program.
-Variables tord bord : state -> node -> list node -> list node.
+Variables tord bord pord : state -> node -> list node -> list node.
 Variable rk : node -> nat.
 Variable sB : state.
 Hypothesis Hrk : forall n e d, alookup p n = Some e -> In d (expr_reads e) -> (rk d < rk n)%nat.
@@ -19,12 +19,13 @@ Hypothesis Hkeys : forall n e, alookup p n = Some e -> is_mexec_kind (nkind n) =
 (** the order oracles keep the members of their argument (true of permutations) *)
 Hypothesis Htord : forall s x l y, In y (tord s x l) <-> In y l.
 Hypothesis Hbord : forall s x l y, In y (bord s x l) <-> In y l.
+Hypothesis Hpord : forall s x l y, In y (pord s x l) <-> In y l.
 
-Notation mquery := (query_for_o p None tord bord).
-Notation mexecute := (execute_o p None tord bord).
-Notation meval := (eval_o p None tord bord).
-Notation mrepair := (repair_o p None tord bord).
-Notation mbackward := (backward_o p None tord bord).
+Notation mquery := (query_for_o p None tord bord pord).
+Notation mexecute := (execute_o p None tord bord pord).
+Notation meval := (eval_o p None tord bord pord).
+Notation mrepair := (repair_o p None tord bord pord).
+Notation mbackward := (backward_o p None tord bord pord).
 
 Lemma MKeeps_same_nodes : forall s s', s_nodes s' = s_nodes s -> MKeeps s s'.
 Proof.
@@ -54,10 +55,10 @@ Proof.
 Qed.
 
 Lemma mq_tfc_cases : forall f stk c sp n s s1,
-  mq_tfc p tord bord f stk c sp n s = Ok s1 ->
+  mq_tfc p tord bord pord f stk c sp n s = Ok s1 ->
   (s1 = s /\ ~ (exists i, (c = CUser \/ c = CRepairFirewall) /\ sp = SRepair /\ get_info s n = Some i))
   \/ (exists i, (c = CUser \/ c = CRepairFirewall) /\ sp = SRepair /\ get_info s n = Some i /\
-        mtfc p tord bord f stk (tord s n (i_tfc i)) s = Ok s1).
+        mtfc p tord bord pord f stk (tord s n (i_tfc i)) s = Ok s1).
 Proof.
   intros f stk c sp n s s1 H. unfold mq_tfc in H.
   destruct c as [|b rv pd prev| |]; destruct sp; destruct (get_info s n) as [i|] eqn:Ei;
@@ -66,15 +67,15 @@ Proof.
 Qed.
 
 (** ** the executor *)
-Lemma msound_eval_step : forall f, msound_query p tord bord rk sB f -> msound_eval p tord bord rk sB f -> msound_eval p tord bord rk sB (S f).
+Lemma msound_eval_step : forall f, msound_query p tord bord pord rk sB f -> msound_eval p tord bord pord rk sB f -> msound_eval p tord bord pord rk sB (S f).
 Proof.
   intros f IHq IHe.
-  destruct (mmono_all p tord bord f) as (Mq & Mx & Me & Mr & Mb).
+  destruct (mmono_all p tord bord pord f) as (Mq & Mx & Me & Mr & Mb).
   assert (Hbin : forall inp X stk n pd prev a b op fr s o fr' ms s',
             MInv p rk sB X inp s ->
             (forall d, In d (expr_reads a ++ expr_reads b) -> StkR p stk d /\ (rk d < rk n)%nat) ->
             MFrOk rk s n fr -> (pd = true \/ MPrevOK s prev) -> (pd = true \/ X = []) ->
-            mbin p tord bord f stk (CQuery n true pd prev) a b op fr s = Ok (o, fr', ms, s') ->
+            mbin p tord bord pord f stk (CQuery n true pd prev) a b op fr s = Ok (o, fr', ms, s') ->
             MInv p rk sB X inp s' /\ MKeeps s s' /\ ms = [] /\ MFrOk rk s' n fr' /\
             (forall d x, frR fr d x -> frR fr' d x) /\
             exists x y l1 l2, o = EVal (op x y) /\ evr (frR fr') a x l1 /\ evr (frR fr') b y l2 /\
@@ -98,7 +99,7 @@ Proof.
   assert (Hread : forall inp X stk n pd prev n0 fr s x fr1 m1 s1,
             MInv p rk sB X inp s -> StkR p stk n0 -> (rk n0 < rk n)%nat ->
             MFrOk rk s n fr -> (pd = true \/ MPrevOK s prev) -> (pd = true \/ X = []) ->
-            mread p tord bord f stk (CQuery n true pd prev) n0 fr s = Ok (x, fr1, m1, s1) ->
+            mread p tord bord pord f stk (CQuery n true pd prev) n0 fr s = Ok (x, fr1, m1, s1) ->
             MInv p rk sB X inp s1 /\ MKeeps s s1 /\ m1 = [] /\ MonoR stk s s1 /\
             exists i, x = EVal (i_value i) /\ fr1 = fr_obs_reg fr n0 i /\ MFrOk rk s1 n fr1 /\
               (forall d y, frR fr d y -> frR fr1 d y) /\ frR fr1 n0 (i_value i)).
@@ -123,7 +124,7 @@ Proof.
             MInv p rk sB X inp s ->
             (forall d, In d ns -> StkR p stk d /\ (rk d < rk n)%nat) ->
             MFrOk rk s n fr -> (pd = true \/ MPrevOK s prev) -> (pd = true \/ X = []) ->
-            mgroup p tord bord f stk (CQuery n true pd prev) ns acc fr [] s = Ok (x, fr1, m1, s1) ->
+            mgroup p tord bord pord f stk (CQuery n true pd prev) ns acc fr [] s = Ok (x, fr1, m1, s1) ->
             MInv p rk sB X inp s1 /\ MKeeps s s1 /\ m1 = [] /\ MFrOk rk s1 n fr1 /\
             (forall d y, frR fr d y -> frR fr1 d y) /\
             exists w l, x = EVal (acc + w) /\ evr (frR fr1) (EGroup ns) w l /\
@@ -131,7 +132,7 @@ Proof.
   { intros inp X stk n pd prev. induction ns as [|n0 r IHn]; intros acc fr s x fr1 m1 s1 HI Hstk Hfr Hpd Hpx H; cbn [mgroup] in H.
     - injection H as <- <- <- <-. split; [exact HI|]. split; [apply MKeeps_refl|]. split; [reflexivity|]. split; [exact Hfr|].
       split; [auto|]. exists 0, []. split; [f_equal; lia|]. split; [constructor|]. intro d. cbn [In]. tauto.
-    - destruct (mread p tord bord f stk (CQuery n true pd prev) n0 fr s) as [[[[x0 fr2] m2] s2]| | |] eqn:E1; try discriminate.
+    - destruct (mread p tord bord pord f stk (CQuery n true pd prev) n0 fr s) as [[[[x0 fr2] m2] s2]| | |] eqn:E1; try discriminate.
       destruct (Hstk n0 (or_introl eq_refl)) as (Hs0 & Hr0).
       destruct (Hread _ _ _ _ _ _ _ _ _ _ _ _ _ HI Hs0 Hr0 Hfr Hpd Hpx E1) as (HI1 & K1 & -> & M1 & i & -> & -> & Hfr2 & Hsub1 & Hn0).
       cbn [app] in H.
@@ -145,7 +146,7 @@ Proof.
       + constructor; [apply Hsub2; exact Hn0|exact Hev].
       + intro d. rewrite Hk, (fr_obs_reg_keys_In rk). cbn [In]. intuition. }
   red. intros inp X stk n pd prev e fr s o fr' ms s' HI Hstk Hfr Hpd Hpx H.
-  rewrite (eval_S p tord bord f _ _ e fr s) in H. destruct e.
+  rewrite (eval_S p tord bord pord f _ _ e fr s) in H. destruct e.
   - injection H as <- <- <- <-. split; [exact HI|]. split; [apply MKeeps_refl|]. split; [reflexivity|].
     split; [exact Hfr|]. split; [auto|]. exists z, []. split; [reflexivity|]. split; [constructor|].
     intro d. cbn [In]. tauto.
@@ -191,7 +192,7 @@ Proof.
       eapply evr_mono; [exact Hev1|]. intros d x0 _ Hx0. apply Hsub2. exact Hx0.
     + intro d. rewrite Hk2, Hk1, in_app_iff. tauto.
   - cbn [expr_reads] in Hstk.
-    destruct (mgroup p tord bord f stk (CQuery n true pd prev) ns 0 (fr_set_unordered fr true) [] s) as [[[[x fr1] m1] s1]| | |] eqn:E1; try discriminate.
+    destruct (mgroup p tord bord pord f stk (CQuery n true pd prev) ns 0 (fr_set_unordered fr true) [] s) as [[[[x fr1] m1] s1]| | |] eqn:E1; try discriminate.
     destruct (Hgrp _ _ _ _ _ _ _ _ _ _ _ _ _ _ HI Hstk (MFrOk_set_true rk _ _ _ Hfr) Hpd Hpx E1)
       as (HI1 & K1 & -> & Hfr1 & Hsub & w & l & -> & Hev & Hk).
     injection H as <- <- <- <-. split; [exact HI1|]. split; [exact K1|]. split; [reflexivity|].
@@ -200,20 +201,20 @@ Proof.
 Qed.
 
 (** ** repair *)
-Lemma msound_repair_step : forall f, msound_query p tord bord rk sB f -> msound_execute p tord bord rk sB f -> msound_repair p tord bord rk sB (S f).
+Lemma msound_repair_step : forall f, msound_query p tord bord pord rk sB f -> msound_execute p tord bord pord rk sB f -> msound_repair p tord bord pord rk sB (S f).
 Proof.
   intros f IHq IHx.
-  destruct (mmono_all p tord bord f) as (Mq & Mx & Me & Mr & Mb).
+  destruct (mmono_all p tord bord pord f) as (Mq & Mx & Me & Mr & Mb).
   red. intros inp X stk c n s ms s' HI Hstk Hroot Hnv Hnp H. rewrite repair_S in H.
   destruct (get_info s n) as [i|] eqn:Eg; [|discriminate]. cbv zeta in H.
-  destruct (mwalk p tord bord f n stk (x_pedantic c) i (all_callees (i_fwd i)) false [] empty_frame [] s)
+  destruct (mwalk p tord bord pord f n stk (x_pedantic c) i (all_callees (i_fwd i)) false [] empty_frame [] s)
     as [[[[d fr1] marks] s1]| | |] eqn:Ew; try discriminate.
   assert (HW0 : MWalkInv s i (all_callees (i_fwd i)) false []).
   { split; [intros x []| |discriminate]. intros x Hx Hn. contradiction. }
-  destruct (msound_walk p tord bord rk sB Hrk f inp X n stk (x_pedantic c) i IHq Hstk (all_callees (i_fwd i)) false [] empty_frame [] s d fr1 marks s1
+  destruct (msound_walk p tord bord pord rk sB Hrk f inp X n stk (x_pedantic c) i IHq Hstk (all_callees (i_fwd i)) false [] empty_frame [] s d fr1 marks s1
               HI Eg Hnv Hnp (fun x Hx => Hx) eq_refl eq_refl eq_refl HW0 Ew)
     as (HI1 & K1 & -> & Hscc & Htfc & Hd).
-  pose proof (mmono_walk p tord bord f n stk _ i Mq _ _ _ _ _ _ _ _ _ _ Ew) as M1.
+  pose proof (mmono_walk p tord bord pord f n stk _ i Mq _ _ _ _ _ _ _ _ _ _ Ew) as M1.
   pose proof (mr_stk _ _ _ M1 n (or_introl eq_refl)) as Hn1.
   assert (Hi1 : get_info s1 n = Some i) by congruence.
   assert (Hnv1 : ~ sverified s1 n).
@@ -221,8 +222,8 @@ Proof.
     rewrite <- (mr_ts _ _ _ M1). exact J2. }
   cbn [nmem existsb] in H.
   destruct d as [|rtfc cl].
-  - match type of H with context [execute_o p None tord bord f ?a ?b ?c0 ?d0 ?e ?g] =>
-      destruct (execute_o p None tord bord f a b c0 d0 e g) as [[m2 s2]| | |] eqn:Ex; try discriminate end.
+  - match type of H with context [execute_o p None tord bord pord f ?a ?b ?c0 ?d0 ?e ?g] =>
+      destruct (execute_o p None tord bord pord f a b c0 d0 e g) as [[m2 s2]| | |] eqn:Ex; try discriminate end.
     injection H as <- <-.
     assert (Hfe : FrEmpty (fr_clear fr1)).
     { unfold FrEmpty, fr_clear. cbn. auto. }
@@ -279,13 +280,13 @@ Proof.
 Qed.
 
 (** ** the backward projections *)
-Lemma msound_backward_step : forall f, msound_query p tord bord rk sB f -> msound_backward p tord bord rk sB (S f).
+Lemma msound_backward_step : forall f, msound_query p tord bord pord rk sB f -> msound_backward p tord bord pord rk sB (S f).
 Proof.
   intros f IHq. red. intros inp X Y n s s' HI Hv HY H. rewrite backward_S in H. cbv zeta in H.
-  destruct (mbp p tord bord f [] (bord s n (proj_callers s n)) s) as [s1| | |] eqn:Eb; try discriminate. inversion H. subst s'. clear H.
+  destruct (mbp p tord bord pord f [] (bord s n (proj_callers s n)) s) as [s1| | |] eqn:Eb; try discriminate. inversion H. subst s'. clear H.
   assert (Hk : forall q, In q (bord s n (proj_callers s n)) -> nkind q = KProjection).
   { intros q Hq. apply Hbord in Hq. unfold proj_callers in Hq. apply filter_In in Hq. apply kind_eqb_eq. apply Hq. }
-  destruct (msound_bp p tord bord rk sB f inp (X ++ Y) IHq _ _ _ HI Hk Eb) as (HI1 & M1 & V1).
+  destruct (msound_bp p tord bord pord rk sB f inp (X ++ Y) IHq _ _ _ HI Hk Eb) as (HI1 & M1 & V1).
   assert (HI2 : MInv p rk sB X inp s1) by (eapply MInv_close; [exact HI1|]; intros y Hy; apply V1; apply Hbord; apply HY; exact Hy).
   assert (Hv1 : sverified s1 n) by (eapply sverified_mono; eauto).
   destruct Hv1 as [i [Hi Hvi]]. unfold clear_pending. rewrite Hi.
@@ -369,9 +370,9 @@ Proof.
   - apply HS. eapply MSolid_step; eauto.
 Qed.
 
-Lemma msound_execute_step : forall f, msound_eval p tord bord rk sB f -> msound_execute p tord bord rk sB (S f).
+Lemma msound_execute_step : forall f, msound_eval p tord bord pord rk sB f -> msound_execute p tord bord pord rk sB (S f).
 Proof.
-  intros f IHe. destruct (mmono_all p tord bord f) as (Mq & Mx & Me & Mr & Mb).
+  intros f IHe. destruct (mmono_all p tord bord pord f) as (Mq & Mx & Me & Mr & Mb).
   red. intros inp X stk c n rc fr0 s ms s' HI Hstk Hroot Hfr0 Hnv Hpx Hrc H.
   rewrite execute_S in H. cbv zeta in H.
   match type of H with context [match ?X with Ok _ => _ | OutOfFuel => OutOfFuel | Panic c => Panic c | Stuck => Stuck end] =>
@@ -487,7 +488,7 @@ Proof.
     destruct chg eqn:Ec.
     - destruct (c_follow c) eqn:Efo.
       + (* the backward projections follow: dirt stops at the projections *)
-        destruct (MInv_propagate_p p rk sB Hproj X inp _ s1 n s2 HI1 Epr Hnv1 HNV Kfp) as (A & N1 & N2 & N3 & N4 & UD).
+        destruct (MInv_propagate_p p rk sB Hproj pord Hpord X inp _ s1 n s2 HI1 Epr Hnv1 HNV Kfp) as (A & N1 & N2 & N3 & N4 & UD).
         assert (Hg2 : forall m, get_info s2 m = get_info s1 m) by (intro m; unfold get_info; rewrite N1; reflexivity).
         assert (Hvz : i_value i1 <> z).
         { unfold chg, mx_changed in Ec. rewrite Ei1 in Ec. apply andb_true_iff in Ec. destruct Ec as [_ Ec].
@@ -496,13 +497,13 @@ Proof.
         split; [exact N1|]. split; [exact N3|]. split; [exact N4|]. split; [exact N2|]. split.
         * intros _. eapply Dirt_of_UpDirtyP; eauto. rewrite Hg2. exact Ei1.
         * split; [intros y Hy; eapply ywin_spec; eauto|]. split; [discriminate|]. right. reflexivity.
-      + destruct (MInv_propagate_t p rk sB X inp _ s1 n s2 HI1 Epr Hnv1 HNV Kfp) as (A & N1 & N2 & N3 & N4 & UD).
+      + destruct (MInv_propagate_t p rk sB pord Hpord X inp _ s1 n s2 HI1 Epr Hnv1 HNV Kfp) as (A & N1 & N2 & N3 & N4 & UD).
         exists noE, []. split; [exact A|]. split; [intros x []|].
         split; [exact N1|]. split; [exact N3|]. split; [exact N4|]. split; [exact N2|]. split.
         * intros _. apply Dirt_of_UpDirty. exact UD.
         * split; [intros y []|]. auto.
     - destruct (mx_tfc_changed s1 n rc z fr1) eqn:Et.
-      + destruct (MInv_propagate_t p rk sB X inp _ s1 n s2 HI1 Epr Hnv1 HNV Kfp) as (A & N1 & N2 & N3 & N4 & UD).
+      + destruct (MInv_propagate_t p rk sB pord Hpord X inp _ s1 n s2 HI1 Epr Hnv1 HNV Kfp) as (A & N1 & N2 & N3 & N4 & UD).
         exists noE, []. split; [exact A|]. split; [intros x []|].
         split; [exact N1|]. split; [exact N3|]. split; [exact N4|]. split; [exact N2|]. split.
         * intros _. apply Dirt_of_UpDirty. exact UD.
@@ -561,10 +562,10 @@ Qed.
 
 (** ** one request *)
 Lemma msound_query_step : forall f,
-  msound_query p tord bord rk sB f -> msound_execute p tord bord rk sB f -> msound_repair p tord bord rk sB f -> msound_backward p tord bord rk sB f ->
-  msound_query p tord bord rk sB (S f).
+  msound_query p tord bord pord rk sB f -> msound_execute p tord bord pord rk sB f -> msound_repair p tord bord pord rk sB f -> msound_backward p tord bord pord rk sB f ->
+  msound_query p tord bord pord rk sB (S f).
 Proof.
-  intros f IHq IHx IHr IHb. destruct (mmono_all p tord bord f) as (Mq & Mx & Me & Mr & Mb).
+  intros f IHq IHx IHr IHb. destruct (mmono_all p tord bord pord f) as (Mq & Mx & Me & Mr & Mb).
   red. intros inp X Y stk c fr n s o fr' ms s' HI Hstk Hroot Hnp Hxm HY H.
   rewrite query_for_S in H. cbv zeta in H.
   rewrite mq_reg_caller in H.
@@ -588,7 +589,7 @@ Proof.
     inversion H. subst. split; [exact HI|]. split; [intros _; apply MKeeps_refl|]. split; [reflexivity|].
     exists i. split; [exact Hi|]. split; [exact Hv|]. intro Hpre. eapply mhit_post; eauto. }
   pose proof (fast_path_slow _ _ _ _ _ _ Ef) as Hsp.
-  destruct (mq_tfc p tord bord f stk c' sp n s) as [s1| | |] eqn:Et; try discriminate.
+  destruct (mq_tfc p tord bord pord f stk c' sp n s) as [s1| | |] eqn:Et; try discriminate.
   (* the TFC repair *)
   assert (T1 : MInv p rk sB (X ++ Y) inp s1 /\ (is_cq c = true -> MKeeps s s1) /\ MonoR stk s s1 /\
                (sp <> SBackward -> x_pedantic c' = true \/ sverified s1 n \/ (X = [] /\ TfcOK s1 n) \/
@@ -618,7 +619,7 @@ Proof.
       { destruct HY as [K|(_ & K & _)]; [exact K|]. exfalso. destruct Hsp as [j (J1 & J2)]. destruct K as [j' [K1 K2]].
         assert (j' = j) by congruence. subst. contradiction. }
       subst X Y stk. cbn [app] in *.
-      destruct (msound_tfc p tord bord rk sB f inp IHq _ _ _ HI Ht)
+      destruct (msound_tfc p tord bord pord rk sB f inp IHq _ _ _ HI Ht)
         as (A & C).
       assert (M : MonoR [] s s1) by (eapply mmono_tfc; eauto).
       split; [exact A|]. split.
@@ -629,7 +630,7 @@ Proof.
       destruct (mr_unch _ _ _ M n) as [E|V]; [right; left|left; exact V]. split; [reflexivity|].
       intros j Hj F HF. rewrite E, Hi in Hj. inversion Hj. subst j. apply C. apply Htord. exact HF. }
   destruct T1 as (HI1 & K1 & M1 & Hnp1 & Hsb1).
-  destruct (mq_process p tord bord f stk c' sp n s1) as [[marks s2]| | |] eqn:Ep; try discriminate.
+  destruct (mq_process p tord bord pord f stk c' sp n s1) as [[marks s2]| | |] eqn:Ep; try discriminate.
   assert (P2 : exists Y2, MInv p rk sB (X ++ Y2) inp s2 /\ (c_follow c = false -> Y2 = []) /\
                  (Y2 = [] \/ has_pending s2 n = true) /\ (forall y, In y Y2 -> In y (proj_callers s2 n)) /\
                  sverified s2 n /\ marks = [] /\ MonoR stk s1 s2 /\ (is_cq c = true -> MKeeps s1 s2)).
@@ -722,7 +723,7 @@ Proof.
 Qed.
 
 Lemma msound_all : forall f,
-  msound_query p tord bord rk sB f /\ msound_execute p tord bord rk sB f /\ msound_eval p tord bord rk sB f /\ msound_repair p tord bord rk sB f /\ msound_backward p tord bord rk sB f.
+  msound_query p tord bord pord rk sB f /\ msound_execute p tord bord pord rk sB f /\ msound_eval p tord bord pord rk sB f /\ msound_repair p tord bord pord rk sB f /\ msound_backward p tord bord pord rk sB f.
 Proof.
   induction f as [|f (IHq & IHx & IHe & IHr & IHb)].
   - split; [|split; [|split; [|split]]]; red; intros;
